@@ -581,13 +581,19 @@ pub fn repair_surrogates(s: &str) -> Result<String, String> {
 /// Decode every `\u{..}` token to the literal scalar (escaping it if it is a regex metacharacter is
 /// unnecessary: only non-ASCII scalars are ever escaped this way by the subject).
 pub fn decode_escapes(s: &str) -> Result<String, String> {
+    decode_escapes_opt(s, false)
+}
+
+/// With `keep_whitespace` (verbose-mode patterns) escapes of White_Space scalars stay escapes: written
+/// literally they would be ignored by (?x), which is exactly why the subject writes them as escapes.
+pub fn decode_escapes_opt(s: &str, keep_whitespace: bool) -> Result<String, String> {
     let toks = scan_escapes(s);
     let mut out = String::new();
     let mut pos = 0;
     for t in &toks {
         out.push_str(&s[pos..t.start]);
         match char::from_u32(t.value) {
-            Some(c) if !c.is_ascii() => out.push(c),
+            Some(c) if !c.is_ascii() && !(keep_whitespace && c.is_whitespace()) => out.push(c),
             Some(_) => out.push_str(&s[t.start..t.end]),
             None => return Err(format!("escape \\u{{{:x}}} is not a scalar value", t.value)),
         }
